@@ -100,6 +100,34 @@ def cases(seed, tier):
         c["script"][0]["inject"] = [{"id": "p", "at": {"msg": n_, "plus": rng.choice([1, 2, 3])}, "do": "pause"}]
         c["script"][0]["decisions"] = [{"do": "sleep", "t": 1.0}, {"do": "resume"}]
         yield c
+    # a status that is still pending when a checkpoint is passed (its message is not replayed by a later rewind), a
+    # pause and resume after that checkpoint, and only then - or during the pause - the failure: it reaches the plan
+    # by the wait on its group all the same
+    # (an exposure, not a move: the engine stops every moved device when it pauses, which finishes the move's status)
+    if pg.dets:
+        m = pg.dets[0]
+        for j, delay in enumerate([0.2, 0.7, 1.2] if tier != "quick" else rng.sample([0.2, 0.7, 1.2], 2)):
+            g = pg.group()
+            plan = [
+                msg(S, "checkpoint"),
+                msg(S, "trigger", m, group=g),
+                msg(S, "checkpoint"),
+                msg(S, "null"),
+                msg(S, "sleep", None, 0.3),
+                msg(S, "null"),
+                {"op": "try", "site": S(), "body": [msg(S, "wait", None, group=g)], "handlers": [{"exc": "FailedStatus", "body": [msg(S, "null")], "reraise": rng.random() < 0.5}]},
+                msg(S, "null"),
+            ]
+            c = copy.deepcopy(case)
+            c["variant"] = f"pending-across-checkpoint-then-pause-{j}"
+            c["script"][0]["plan"] = plan
+            for dev in c["devices"].values():
+                dev.pop("faults", None)
+            c["devices"][m]["trigger_delay"] = 5.0
+            c["devices"][m]["faults"] = {"trigger#0": {"kind": "status_fail", "exc": "RuntimeError", "delay": delay}}
+            c["script"][0]["inject"] = [{"id": "p", "at": {"msg": 4, "plus": rng.choice([0, 1])}, "do": "pause"}]
+            c["script"][0]["decisions"] = [{"do": "sleep", "t": 0.5}, {"do": "resume"}]
+            yield c
     # one status of a group fails while another status of the same group is still pending; the plan handles the
     # FailedStatus at the wait and waits for the rest of the group again (or a pause + resume replays the wait):
     # the failure is delivered once, at that wait, and nothing is thrown at a later site
